@@ -200,6 +200,7 @@ func Run(c *engine.Ctx) {
 	deepNesting(c, fds)
 	wideCollections(c, fds)
 	afterEdit(c, fds)
+	sharedElements(c, fds)
 	for _, b := range bases() {
 		b := b
 		if b.Label == "full20" && !c.Thorough() {
@@ -536,4 +537,62 @@ func snapDiff(d *sbom.NodeDiff) string {
 		r = gen.Canon(d.Removed, nil)
 	}
 	return fmt.Sprintf("count=%d added=%s removed=%s", d.DiffCount, a, r)
+}
+
+// sharedElements: the second node was derived from the first without a deep copy - its supplier, originator and
+// external-reference lists hold the SAME element objects as the first node's (a common prefix, the whole list, one
+// element), followed by nothing, by one of those objects again, by an equal copy of one, or by a different element.
+func sharedElements(c *engine.Ctx, fds []protoreflect.FieldDescriptor) {
+	c.Group("shared-elements")
+	type variant struct {
+		Name string
+		Mk   func(l protoreflect.List, n int) []protoreflect.Value
+	}
+	el := func(l protoreflect.List, i int) protoreflect.Value { return l.Get(i) }
+	cl := func(l protoreflect.List, i int) protoreflect.Value {
+		return protoreflect.ValueOfMessage(proto.Clone(l.Get(i).Message().Interface()).ProtoReflect())
+	}
+	variants := []variant{
+		{"same objects, same order", func(l protoreflect.List, n int) []protoreflect.Value { return []protoreflect.Value{el(l, 0), el(l, 1)} }},
+		{"same objects + the first again", func(l protoreflect.List, n int) []protoreflect.Value {
+			return []protoreflect.Value{el(l, 0), el(l, 1), el(l, 0)}
+		}},
+		{"same objects + an equal copy of the first", func(l protoreflect.List, n int) []protoreflect.Value {
+			return []protoreflect.Value{el(l, 0), el(l, 1), cl(l, 0)}
+		}},
+		{"first object only + itself again", func(l protoreflect.List, n int) []protoreflect.Value { return []protoreflect.Value{el(l, 0), el(l, 0)} }},
+		{"first object only", func(l protoreflect.List, n int) []protoreflect.Value { return []protoreflect.Value{el(l, 0)} }},
+		{"same objects reversed", func(l protoreflect.List, n int) []protoreflect.Value { return []protoreflect.Value{el(l, 1), el(l, 0)} }},
+		{"first object + equal copy of the second", func(l protoreflect.List, n int) []protoreflect.Value { return []protoreflect.Value{el(l, 0), cl(l, 1)} }},
+	}
+	var lfs []protoreflect.FieldDescriptor
+	for _, fd := range fds {
+		if fd.IsList() && fd.Kind() == protoreflect.MessageKind {
+			lfs = append(lfs, fd)
+		}
+	}
+	c.Bound("shared-elements", fmt.Sprintf("%d message-valued lists x %d ways in which the second node's list is made of the first node's own element objects (prefix, repeated, reversed, next to equal copies) x both directions", len(lfs), len(variants)))
+	for _, fd := range lfs {
+		for vi := range variants {
+			for dir := 0; dir < 2; dir++ {
+				fd, vi, dir := fd, vi, dir
+				c.Case(func() any { return map[string]any{"list": string(fd.Name()), "second-node": variants[vi].Name, "reverse": dir == 1} }, func(t *engine.T) *engine.Violation {
+					n1 := &sbom.Node{}
+					gen.Full(n1, "A", 2)
+					n2 := proto.Clone(n1).(*sbom.Node)
+					src := n1.ProtoReflect().Get(fd).List()
+					dst := n2.ProtoReflect().Mutable(fd).List()
+					dst.Truncate(0)
+					for _, v := range variants[vi].Mk(src, src.Len()) {
+						dst.Append(v)
+					}
+					a, b := n1, n2
+					if dir == 1 {
+						a, b = n2, n1
+					}
+					return diffCase(t, fds, a, b, fmt.Sprint("shared", fd.Name(), vi, dir))
+				})
+			}
+		}
+	}
 }
